@@ -17,6 +17,7 @@ func init() {
 			{ID: "C13-R3", Doc: "all-or-nothing for Cache/ReadCache", Run: c13r3},
 			{ID: "C08-R5", Doc: "the frozen environment is the one that travels (shared)", Run: c08r5},
 			{ID: "C13-R5", Doc: "write-through and read-back errors surface", Run: c13r5},
+			{ID: "C16-R9", Doc: "the frozen compile environment arrives frozen, so workers do not re-decide cache hits (shared)", Run: c16r9},
 		},
 	})
 }
